@@ -39,6 +39,11 @@ func fnName(f *ssa.Function) string {
 	if f.Origin() != nil { // instantiation of a generic
 		f = f.Origin()
 	}
+	if curProg != nil && curProg.ti != nil {
+		if a, ok := curProg.ti.alias[f]; ok {
+			return a
+		}
+	}
 	if o := f.Object(); o != nil {
 		if fo, ok := o.(*types.Func); ok {
 			return short(fo.FullName())
@@ -189,7 +194,14 @@ func stripNot(cond ssa.Value, branch bool) (ssa.Value, bool) {
 		}
 		// a boolean helper that is looked through (`if p.isClosed()`): the condition is what the helper returned
 		if c, ok := cond.(*ssa.Call); ok {
-			if callee := transparentCallee(c); callee != nil && callee.Signature.Results().Len() == 1 {
+			callee := transparentCallee(c)
+			if callee == nil && lookThroughBaselinePredicates {
+				// a library predicate of the baseline whose whole body is `return <condition>` is matched as that condition too
+				if sc := c.Call.StaticCallee(); sc != nil && sc.Blocks != nil && isRepoPath(fnPkgPath(sc)) && sc != c.Parent() && isBoolResult(sc) {
+					callee = sc
+				}
+			}
+			if callee != nil && callee.Signature.Results().Len() == 1 {
 				var rets []*ssa.Return
 				if only, bound := resultEnv[c]; bound && only != nil {
 					rets = []*ssa.Return{only}
@@ -463,7 +475,7 @@ func pathExists(fn *ssa.Function, from, to ssa.Instruction, cutEdge EdgePred, cu
 				if k, isK := constBool(cond); isK && k != br {
 					continue // the condition is a boolean phi whose value on this incoming edge is a constant
 				}
-				if cutEdge != nil && cutEdge(cond, br) {
+				if applyCut(cutEdge, cond, br) {
 					continue
 				}
 				succs = append(succs, b.Succs[i])
@@ -599,12 +611,28 @@ func reachableFrom(from, to *ssa.BasicBlock) bool {
 func dominates(a, b ssa.Instruction) bool {
 	if a.Parent() != b.Parent() {
 		if isTransparent(a.Parent()) || isTransparent(b.Parent()) {
+			// a helper shared by several callers is entered from the caller that contains a
+			n := 0
 			for _, root := range rootsOf(b.Parent()) {
+				if !isTransparent(a.Parent()) {
+					ra := a.Parent()
+					for ra.Parent() != nil {
+						ra = ra.Parent()
+					}
+					rr := root
+					for rr.Parent() != nil {
+						rr = rr.Parent()
+					}
+					if ra != rr {
+						continue
+					}
+				}
+				n++
 				if viPathExists(root, nil, b, nil, isOneOf(a)) {
 					return false
 				}
 			}
-			return true
+			return n > 0
 		}
 		return false
 	}
@@ -729,6 +757,17 @@ func (c *provCtx) walk(v ssa.Value, idx int) {
 					c.walk(s.Val, idx)
 				}
 				return
+			case *ssa.IndexAddr:
+				// element of a local array that is only ever filled element-wise (a candidate list literal):
+				// the value may be any of the stored elements
+				if al, isAl := a.X.(*ssa.Alloc); isAl {
+					if vals, ok := localArrayElems(al); ok {
+						for _, ev := range vals {
+							c.walk(ev, idx)
+						}
+						return
+					}
+				}
 			case *ssa.FreeVar:
 				if cell := freeVarCell(a); cell != nil {
 					sts := storesToCell(cell)
@@ -737,6 +776,19 @@ func (c *provCtx) walk(v ssa.Value, idx int) {
 					}
 					for _, s := range sts {
 						c.walk(s.Val, idx)
+					}
+					return
+				}
+			}
+		}
+		c.emit(v, idx)
+	case *ssa.Index:
+		// element of a local array VALUE (range over an array literal copies it first)
+		if ld, ok := x.X.(*ssa.UnOp); ok && ld.Op == token.MUL {
+			if al, isAl := ld.X.(*ssa.Alloc); isAl {
+				if vals, okA := localArrayElems(al); okA {
+					for _, ev := range vals {
+						c.walk(ev, idx)
 					}
 					return
 				}
@@ -1037,6 +1089,21 @@ func oCall(idx int, names ...string) OPred {
 	}
 }
 
+// oCallT: origin is the result of a call to one of names whose TYPE is typ (robust against a reordered result tuple).
+func oCallT(typ string, names ...string) OPred {
+	return func(o Origin) bool {
+		call := asCall(o.V)
+		if call == nil || !isCallTo(o.V, names...) {
+			return false
+		}
+		res := call.Call.Signature().Results()
+		if o.Index < 0 {
+			return res.Len() == 1 && typeStr(res.At(0).Type()) == typ
+		}
+		return o.Index < res.Len() && typeStr(res.At(o.Index).Type()) == typ
+	}
+}
+
 // baseName strips package/receiver qualification from a resolved callee name: "(*p.T).m" and "p.m" both give "m".
 func baseName(full string) string {
 	if i := strings.LastIndex(full, "."); i >= 0 {
@@ -1193,7 +1260,7 @@ func fieldIs(t types.Type, idx int, typeName, field string) bool {
 	if st == nil || idx >= st.NumFields() {
 		return false
 	}
-	if st.Field(idx).Name() != field {
+	if fieldNameOf(n, st, idx) != field {
 		return false
 	}
 	return typeName == "" || typeFullName(n) == typeName
@@ -1262,4 +1329,67 @@ func describeOrigin(o *Origin) string {
 		return describe(o.V) + " result#" + string(rune('0'+o.Index))
 	}
 	return describe(o.V)
+}
+
+func isBoolResult(f *ssa.Function) bool {
+	if f.Signature.Results().Len() != 1 {
+		return false
+	}
+	b, ok := f.Signature.Results().At(0).Type().Underlying().(*types.Basic)
+	return ok && b.Kind() == types.Bool
+}
+
+// lookThroughBaselinePredicates is set while a guard is given its second chance (applyCut): the condition `if v.ok()`
+// is then matched as the expression the baseline predicate ok returns.
+var lookThroughBaselinePredicates bool
+
+// applyCut evaluates an edge fact on a condition: first on the condition as written, then — when the condition is the
+// call of a library predicate — on the expression that predicate returns.
+func applyCut(cut EdgePred, cond ssa.Value, br bool) bool {
+	if cut == nil {
+		return false
+	}
+	if cut(cond, br) {
+		return true
+	}
+	if lookThroughBaselinePredicates {
+		return false
+	}
+	lookThroughBaselinePredicates = true
+	defer func() { lookThroughBaselinePredicates = false }()
+	return cut(cond, br)
+}
+
+// localArrayElems returns the values stored into the elements of a local array variable, provided the array is only
+// accessed through element addresses and whole-array loads (it does not escape).
+func localArrayElems(al *ssa.Alloc) ([]ssa.Value, bool) {
+	if _, isArr := al.Type().Underlying().(*types.Pointer).Elem().Underlying().(*types.Array); !isArr {
+		return nil, false
+	}
+	var vals []ssa.Value
+	for _, ref := range *al.Referrers() {
+		switch r := ref.(type) {
+		case *ssa.IndexAddr:
+			for _, rr := range *r.Referrers() {
+				switch u := rr.(type) {
+				case *ssa.Store:
+					if u.Addr == ssa.Value(r) {
+						vals = append(vals, u.Val)
+					} else {
+						return nil, false
+					}
+				case *ssa.UnOp:
+					// load of an element
+				default:
+					return nil, false
+				}
+			}
+		case *ssa.UnOp:
+			// whole-array load (range over the array)
+		case *ssa.DebugRef:
+		default:
+			return nil, false
+		}
+	}
+	return vals, len(vals) > 0
 }
